@@ -655,7 +655,7 @@ package secp256k1
 //@   mode int
 //@   nilable element
 //@   requires inv(e) && (isnil(element) || inv(element))
-//@   ensures sum [C02,C10]: imp(!isnil(element), inv(e) && pt(e) == gadd(old(pt(e)), old(pt(element))))
+//@   ensures sum [C02,C10]: imp(!isnil(element), inv(e) && pt(e) == gadd(old(pt(e)), old(pt(element)))) by rcb_add(old(fv(e.x)), old(fv(e.y)), old(fv(e.z)), old(fv(element.x)), old(fv(element.y)), old(fv(element.z)))
 //@   ensures nil [C02]: imp(isnil(element), unchanged(e))
 //@   modifies *e
 //@   returns e
